@@ -52,17 +52,18 @@ type RSeg struct {
 
 // RCase is one reader history.
 type RCase struct {
-	ID        string `json:"id"`
-	Family    string `json:"family"`
-	Arch      int    `json:"arch"`
-	Impl      string `json:"impl"`
-	Kind      string `json:"kind"`
-	Segs      []RSeg `json:"segs"`
-	Group     string `json:"group"` // comparison group (C04 / C18 / C13)
-	GClause   string `json:"gclause"`
-	Tag       string `json:"tag"`
-	Mech      bool   `json:"mech"`      // record the Reader's mechanism events (hooks) as well
-	GroupLast bool   `json:"grouplast"` // only the last segment takes part in the group comparison
+	ID        string    `json:"id"`
+	Family    string    `json:"family"`
+	Arch      int       `json:"arch"`
+	Impl      string    `json:"impl"`
+	Kind      string    `json:"kind"`
+	Segs      []RSeg    `json:"segs"`
+	Group     string    `json:"group"` // comparison group (C04 / C18 / C13)
+	GClause   string    `json:"gclause"`
+	Tag       string    `json:"tag"`
+	Mech      bool      `json:"mech"`      // record the Reader's mechanism events (hooks) as well
+	GroupLast bool      `json:"grouplast"` // only the last segment takes part in the group comparison
+	Huge      *HugeSpec `json:"huge"`      // instead of Segs: a gzip file with a member of about 4 GiB (hugecase.go)
 }
 
 // GroupKey names the comparison group of the case.
@@ -473,6 +474,10 @@ func sameGz(a, b GzHeader) bool {
 
 // execReaderCase runs the segments of a case on one Reader.
 func execReaderCase(c *RCase, arch int, emit func(interface{})) {
+	if c.Huge != nil {
+		execHugeCase(c, arch, emit)
+		return
+	}
 	rec := &rrec{id: c.ID, emit: emit}
 	if c.Mech && c.Impl == "fastgo" {
 		// mechanism events of the inflater's input handling, interleaved with the contract events
